@@ -98,7 +98,7 @@ Qed.
 
 Lemma props_unpack_safe : forall ptype b, safe_rd b (props_unpack ptype b).
 Proof.
-  intros. unfold props_unpack.
+  intros. unfold props_unpack. destruct b as [|b0 bt] eqn:Eb; [cbn; lia|]. rewrite <- Eb. clear Eb b0 bt.
   pose proof (read_varint_safe b) as Hv.
   destruct (read_varint b) as [[n r]| | |]; cbn [bind safe_rd] in Hv |- *; auto.
   destruct (n =? 0); [cbn [safe_rd]; lia|]. unfold buf_next.
@@ -137,7 +137,7 @@ Lemma safe_will_props_unpack : forall b, safe (will_props_unpack b). Proof. intr
 (* ---------------------------------------------------------------- packets *)
 Lemma parse_connect_safe : forall b, safe (parse_connect b).
 Proof. intros. unfold parse_connect. ss. Qed.
-Lemma parse_connack_safe : forall b, safe (parse_connack b).
+Lemma parse_connack_safe : forall v b, safe (parse_connack v b).
 Proof. intros. unfold parse_connack. ss. Qed.
 Lemma publish_flags_safe : forall f, safe (publish_flags f).
 Proof. intros. unfold publish_flags. ss. Qed.
